@@ -108,8 +108,15 @@ def copyOf (rhs : Deq α) : Deq α := pushAll rhs.toList { blockSize := rhs.bloc
 /-- `operator=(theRHS)` for `this != &theRHS` (`m_blockSize` is const and stays) -/
 def assign (d rhs : Deq α) : Deq α := pushAll rhs.toList (clear d)
 
-/-- `swap`: block index and free-block vector change sides, `m_blockSize` (const) does not -/
+/-- the pointer exchange of `swap`: block index and free-block vector change sides, `m_blockSize`
+(const) does not.  This is all the **unrepaired** `swap` does, whatever the block sizes. -/
 def swapInto (self other : Deq α) : Deq α := { other with blockSize := self.blockSize }
+
+/-- `a.swap(b)` after the repair `proposed/C20-deque-swap.diff`: equal block sizes exchange the
+blocks; otherwise `theTemp(mm, 0, m_blockSize); theTemp = b; b = *this; swap(theTemp)`. -/
+def swapPair (a b : Deq α) : Deq α × Deq α :=
+  if a.blockSize = b.blockSize then (swapInto a b, swapInto b a)
+  else (swapInto a (assign { blockSize := a.blockSize } b), assign b a)
 
 end Deq
 end XalanModel.Containers
